@@ -19,7 +19,9 @@ TYP = {
     "Lit": "Literal['a', 'b']", "Opt_Lit": "Optional[Literal['a', 'b']]", "List_str": "List[str]",
     "Union_int_str": "Union[int, str]", "Dotted": "np.ndarray", "Any": "Any", "Opt_Any": "Optional[Any]",
     "Lit3u": "Literal['b', 'a', 'c']",
+    "Lit2": "Literal['utf_8', 'v1']", "Opt_Lit2": "Optional[Literal['utf_8', 'v1']]",
 }
+LIT_MEMBERS = {"Lit": ["a", "b"], "Opt_Lit": ["a", "b"], "Lit3u": ["b", "a", "c"], "Lit2": ["utf_8", "v1"], "Opt_Lit2": ["utf_8", "v1"]}
 
 NAMES = [["alpha", "dataset_name", "a", "lr"], ["beta", "tfds_dir", "b", "momentum"], ["gamma_", "k", "c", "as_numpy"],
          ["delta", "n_steps", "d", "eps"], ["epsilon", "data_loader", "e", "decay"], ["zeta", "log_dir", "f", "nesterov"],
@@ -68,8 +70,8 @@ class Gamma(object):
         if d == "bool_F":
             return True, False
         if d == "str":
-            if typ in ("Lit", "Opt_Lit", "Lit3u"):
-                return True, "a"
+            if typ in LIT_MEMBERS:
+                return True, LIT_MEMBERS[typ][-1]
             return True, STRS[salt % len(STRS)]
         if d == "str_empty":
             return True, ""
